@@ -19,6 +19,7 @@ pre A | toroot A | depth A | level A | cpos A B | cposk A I | map A | eq A B
 sortp A K                                    sort(Predicate), K = index into `predOf`
 mkl B V                                      new root object(V, child_list(B.children()))
 pushbv A B | pushfv A B | insv A I B | setv A B    the value argument is a reference to the value of node B (may be A or inside A)
+pushbmv A B | pushfmv A B | setmv A B              the same with std::move(B.value()) (the T && overloads)
 front A | back A | kids A | out A            front()/back(), begin/end + rbegin/rend + size + empty, operator<<
 obsall                                       every observer on every node (and on every pair of nodes while the forest is small)
 ```
@@ -269,15 +270,17 @@ def handle (s : St) (toks : List String) : St × String :=
           if full then (s, "skip:full") else if count F + t.size > copyCap then (s, "skip:big")
           else runOp s (.mkFrom a v) s!"ok b={pa}"
         | _, _ => (s, "bad-op")
-      else if cmd == "pushbv" || cmd == "pushfv" || cmd == "setv" then
+      else if cmd == "pushbv" || cmd == "pushfv" || cmd == "setv" || cmd == "pushbmv" || cmd == "pushfmv" || cmd == "setmv" then
+        -- the value argument refers to the value of node b: by const reference (…v) or as an xvalue (…mv; the moved-from
+        -- value keeps its number)
         match sel F v with
         | some b =>
           match getF b F with
           | some tb =>
             let head := s!"ok a={pa} b={pathStr b}"
-            if cmd == "setv" then runOp s (.setVal a tb.val) head
+            if cmd == "setv" || cmd == "setmv" then runOp s (.setVal a tb.val) head
             else if big then (s, "skip:big")
-            else runOp s (.insV a (if cmd == "pushbv" then .back else .front) tb.val) head
+            else runOp s (.insV a (if cmd == "pushbv" || cmd == "pushbmv" then .back else .front) tb.val) head
           | none => (s, "bad-op")
         | none => (s, "bad-op")
       else (s, "bad-op")
